@@ -228,6 +228,18 @@ Theorem C17_flow_auth_step : forall wrap unwrap sch fuel ap tok pv,
     end.
 Proof. exact flow_auth_step. Qed.
 Print Assumptions C17_flow_auth_step.
+(* ... and the provider afterwards (run_self): the security context has consumed that leg -- self.ctx.step(..) is a method call on an
+   attribute of `self`, written back by the interpreter (PyAst.place_set; x_setattr "ctx" of Flow/World_client.v) *)
+Theorem C17_flow_auth_step_state : forall wrap unwrap sch fuel ap tok pv,
+  pv_type pv = ap_provider ap ->
+  run_self (WC wrap unwrap sch) fuel k_flow_auth_step [VO (OAuthP ap); optbv tok]
+  = match ap_legs ap with
+    | [] => Raise KeyError
+    | l :: ls => Ok (VO (OSt (step_trailer pv (leg_token l))),
+                     Some (VO (OAuthP {| ap_provider := ap_provider ap; ap_legs := ls; ap_complete := leg_complete l |})))
+    end.
+Proof. exact flow_auth_step_state. Qed.
+Print Assumptions C17_flow_auth_step_state.
 Theorem C17_flow_auth_complete : forall wrap unwrap sch fuel ap,
   run (WC wrap unwrap sch) fuel k_flow_auth_complete [VO (OAuthP ap)] = Ok (vb (ap_complete ap)).
 Proof. exact flow_auth_complete. Qed.
